@@ -126,6 +126,9 @@ def run(ctx):
         if ctx.thorough:
             shapes += [(6, 4), (4, 10), (6, 10), (10, 6), (2, 14), (5, 7)]
         run_id = 0
+        # the caller may keep ONE array object per argument and refill it in place between solves (same id, new
+        # contents): every solve must answer for the contents it is given now
+        lam_bufs, cov_bufs = {}, {}
         for (N, W) in shapes:
             n = N * W
             for ci, kind in enumerate(["full", "rankdef", "diag", "corr"]):
@@ -143,6 +146,13 @@ def run(ctx):
                     else:
                         lam = np.abs(rng.standard_normal((n, n))) * 0.3
                         lam = (lam + lam.T) / 2
+                    if lam_kind != "scalar":
+                        buf = lam_bufs.setdefault(n, np.empty((n, n)))
+                        buf[...] = lam
+                        lam = buf
+                    sbuf = cov_bufs.setdefault(n, np.empty((n, n)))
+                    sbuf[...] = S
+                    S = sbuf
                     rho = [1, 1.0, 0.1, 10.0][run_id % 4]
                     cb = boyd if run_id % 3 == 0 else None
                     case = {"N": N, "W": W, "cov": kind, "lam": lam_kind if lam_kind != "scalar" else lv, "lam_value": lv, "rho": float(rho),
